@@ -210,6 +210,10 @@ fn explore_big(name: &str, mname: &str, n: usize, rows: &[Vec<usize>], acc: &mut
     let fresh: Vec<Option<Dec>> = ops.iter().map(|&(v, l)| guard(|| dec::factory_build(name, build()).unwrap().decode(&vecs[v], l)).ok()).collect();
     let mut transitions = 0u64;
     for a in 0..ops.len() {
+        if fresh[a].is_none() {
+            // the first call alone panics: that is C01's finding, not a statement about carried state
+            continue;
+        }
         for b in 0..ops.len() {
             transitions += 1;
             acc.evals += 1;
